@@ -24,6 +24,7 @@ type fleetProfile struct {
 	queryEvery int      // percent chance of a query after a mutation
 	maxOps     int
 	valueSigns []string // pos | neg | mixed | zeros
+	moderate   bool     // values stay well inside the indexable range (unit conversions)
 	concat     bool
 	intruder   bool // one more node with another mapping
 	afterSend  func(g *fleetGen, n *fgNode, msg int, form string)
@@ -146,6 +147,9 @@ func (g *fleetGen) aim(n *fgNode) {
 	default:
 		n.centre = 1
 	}
+	if g.prof.moderate {
+		n.centre = r.LogUniform(1e-4, 1e6)
+	}
 	if n.centre < lo {
 		n.centre = lo
 	}
@@ -192,7 +196,11 @@ func (g *fleetGen) value(n *fgNode) float64 {
 		return v
 	}
 	var v float64
-	switch r.Pick(50, 20, 8, 6, 6, 4, 6) {
+	pick := r.Pick(50, 20, 8, 6, 6, 4, 6)
+	if g.prof.moderate && (pick == 4 || pick == 5) {
+		pick = 0
+	}
+	switch pick {
 	case 0:
 		v = mag()
 	case 1: // aimed at a bin edge, within a few ulps (the implementation is used to aim, never to judge)
@@ -367,7 +375,7 @@ func GenFleet(prof *fleetProfile) func(r *engine.PRNG, run int, tier string) *en
 		if prof.intruder && r.Pct(60) {
 			g.mkNode(prof.roles[r.Intn(len(prof.roles))], prof.stores[r.Intn(len(prof.stores))], nil)
 		}
-		g.opNames = []string{"add", "addw", "merge", "copy", "clear", "reweight", "send", "query", "burst"}
+		g.opNames = []string{"add", "addw", "merge", "copy", "clear", "reweight", "send", "query", "burst", "chmap"}
 		g.weightsTab = make([]int, len(g.opNames))
 		for i, name := range g.opNames {
 			g.weightsTab[i] = prof.ops[name] * []int{0, 1, 1, 3}[r.Intn(4)]
@@ -457,6 +465,8 @@ func (g *fleetGen) actor(n *fgNode) {
 		g.flush(n)
 	case "query":
 		g.doQuery(n)
+	case "chmap":
+		g.changeMapping(n)
 	}
 	if op != "query" && r.Pct(g.prof.queryEvery) {
 		g.doQuery(n)
@@ -666,4 +676,67 @@ func (g *fleetGen) weightOr(regime string) float64 {
 		return dyadicWeight(g.r, regime)
 	}
 	return g.weight()
+}
+
+// changeMapping: the converter. Target mappings are coarser, finer or equal;
+// scale factors lie in [1e-3, 1e3] and include powers of the source base (the
+// bin-aligned case) and 1.
+func (g *fleetGen) changeMapping(n *fgNode) {
+	r := g.r
+	if len(g.nodes) >= 8 {
+		g.doQuery(n)
+		return
+	}
+	spec := engine.Node{ID: g.nextID, Role: n.spec.Role, Store: g.prof.stores[r.Intn(len(g.prof.stores))], Lazy: true}
+	g.nextID++
+	if refmodel.IsCollapsing(spec.Store) {
+		spec.N = []int{16, 100, 2048}[r.Intn(3)]
+	}
+	a1 := float64(n.spec.Alpha)
+	switch r.Pick(25, 30, 30, 15) {
+	case 0: // same mapping
+		spec.Map, spec.Alpha, spec.ByGam, spec.Gamma, spec.Offset = n.spec.Map, n.spec.Alpha, n.spec.ByGam, n.spec.Gamma, n.spec.Offset
+	case 1: // coarser
+		spec.Map = mappingKinds[r.Intn(3)]
+		spec.Alpha = engine.F64(math.Min(0.9, a1*r.LogUniform(1, 20)))
+	case 2: // finer
+		spec.Map = mappingKinds[r.Intn(3)]
+		spec.Alpha = engine.F64(math.Max(1e-5, a1/r.LogUniform(1, 20)))
+	default: // same accuracy, other kind
+		spec.Map = mappingKinds[r.Intn(3)]
+		spec.Alpha = n.spec.Alpha
+	}
+	m, err := buildMapping(&spec)
+	if err != nil {
+		return
+	}
+	scale := 1.0
+	gamma := n.m.ToProto().Gamma
+	switch r.Pick(30, 30, 25, 15) {
+	case 1:
+		scale = r.LogUniform(1e-3, 1e3)
+	case 2: // bin aligned: a power of the source base
+		scale = math.Pow(gamma, float64(r.Range(-3, 3)))
+		if r.Pct(50) {
+			scale = 1 / gamma
+		}
+	case 3:
+		scale = []float64{1000, 0.001, 60, 1.0 / 60, 1024, 0.5, 2}[r.Intn(7)]
+	}
+	if !(scale >= 1e-3 && scale <= 1e3) {
+		scale = 1
+	}
+	g.p.Nodes = append(g.p.Nodes, spec)
+	c := &fgNode{id: spec.ID, spec: spec, m: m, n: n.n, centre: n.centre * scale, spreadBins: n.spreadBins}
+	lo, hi := m.MinIndexableValue(), m.MaxIndexableValue()
+	if c.centre < lo*1e4 {
+		c.centre = lo * 1e4
+	}
+	if c.centre > hi/1e4 {
+		c.centre = hi / 1e4
+	}
+	g.nodes = append(g.nodes, c)
+	g.emit(engine.Event{Ev: "chmap", N: n.id, M: c.id, W: engine.F64(scale)})
+	g.doQuery(c)
+	g.q.After(int64(r.Range(1, 500)), func() { g.actor(c) })
 }
